@@ -5,6 +5,7 @@ Quantifier: every capacity ≥ 1 (the constructor takes `NonZeroUsize`), every l
 (= every interleaving of polls of the two halves, every request size, every budget).
 -/
 import SwimVerif.Proofs.Conduit
+import SwimVerif.Proofs.ConduitProg
 
 set_option linter.unusedSimpArgs false
 namespace SwimVerif.Conduit
@@ -119,5 +120,50 @@ example : (step (reach 2 [.write [1, 2], .write [3]]) (.read 1)).2.wokeW = true 
 example : (reach 2 [.write [1, 2], .dropW]).closed = true ∧ (reach 2 [.write [1, 2], .dropW]).data = [1, 2] := by
   decide
 example : (budgetStep (some 1)).2 = false := by decide
+
+/-! ## The model is the source (translator tie)
+
+`Generated/ConduitSrc.lean` is regenerated on every run from `swimos_byte_channel/src/channel/mod.rs` by
+`tools/extractors/c12.py`: the statement structure of `Conduit::{poll_read, poll_write, poll_flush, poll_shutdown,
+read, write, wake, close_channel}`, of the `coop` wrappers of both halves and of both `Drop` impls.  The theorems
+below say that these programs, executed by `ConduitProg.exec`, ARE the steps of the model every theorem above is
+about.  A change of the source that alters the order of the tests, a branch, a missing wake, an early return or the
+place of the lock regenerates a different program and one of these proofs no longer checks. -/
+
+open SwimVerif.ConduitProg in
+/-- **Every operation of the model is the translated source of that operation**, for every state and argument:
+result, both wake flags and the whole next state (ghost history included). -/
+theorem C12_source_is_model (s : St) (op : Op)
+    (hlive : match op with
+      | .read _ => s.rAlive = true | .dropR => s.rAlive = true
+      | .setBudget _ => False | _ => s.wAlive = true) :
+    step s op =
+      match op with
+      | .read _ => outOf (runOp s op) (resRead (runOp s op))
+      | .dropR | .dropW => outOf (runOp s op) (resDrop (runOp s op))
+      | _ => outOf (runOp s op) (resWrite (runOp s op)) := by
+  cases op with
+  | read k => simp only [step, runOp]; simp only at hlive; rw [if_pos hlive, reader_poll_read_eq]
+  | write bs => simp only [step, runOp]; simp only at hlive; rw [if_pos hlive, writer_poll_write_eq]
+  | flush => simp only [step, runOp]; simp only at hlive; rw [if_pos hlive, writer_poll_flush_eq]
+  | shutdown => simp only [step, runOp]; simp only at hlive; rw [if_pos hlive, writer_poll_shutdown_eq]
+  | dropR => simp only [step, runOp]; simp only at hlive; rw [if_pos hlive, reader_drop_eq]
+  | dropW => simp only [step, runOp]; simp only at hlive; rw [if_pos hlive, writer_drop_eq]
+  | setBudget n => exact absurd hlive (by simp)
+
+open SwimVerif.ConduitProg in
+/-- **Atomicity is read off the source**: every translated operation takes the channel mutex at most once, and no
+statement that reads or writes the shared `Conduit` runs outside it (the budget gate, which touches only the
+thread-local budget, is the only thing before the lock).  This is what makes "one poll = one atomic step" an
+extracted fact rather than an assumption about the text; that `parking_lot::Mutex` serialises the critical
+sections stays trusted. -/
+theorem C12_source_single_critical_section (s : St) (op : Op) :
+    (runOp s op).locks ≤ 1 ∧ (runOp s op).unlockedTouch = false := lock_discipline s op
+
+/-! Non-vacuity: the translated `poll_read` on a full two-byte channel with the writer parked returns one byte and
+fires the writer's waker, under one lock acquisition. -/
+example : (SwimVerif.ConduitProg.runRead (reach 2 [.write [1, 2], .write [3]]) 1).wokeW = true ∧
+    (SwimVerif.ConduitProg.runRead (reach 2 [.write [1, 2], .write [3]]) 1).outb = [1] ∧
+    (SwimVerif.ConduitProg.runRead (reach 2 [.write [1, 2], .write [3]]) 1).locks = 1 := by decide
 
 end SwimVerif.Conduit
